@@ -241,6 +241,7 @@ def run(ctx):
     oks = r0 == ('to', [16]) and r1 == ('from', [16]) and H.field_access(tup.get('2')) == ('self', 'index')
     ctx.ob('R35.1', f'<ord::inscriptions::inscription_id::InscriptionId{ENTRY}store', 'slot 0 = txid bytes [..16], slot 1 = txid bytes [16..], slot 2 = self.index', bool(oks), f'{r0} {r1}', f"{is_['file']}:{is_['line']}")
 
+  _r35_4(ctx)
   # ---------------- R35.2
   sl = F.bodies.get('<(u64, u64)' + ENTRY + 'load')
   ss = F.bodies.get('<(u64, u64)' + ENTRY + 'store')
@@ -311,3 +312,84 @@ MUTANTS = [{'name': 'mints-premine-swapped-in-store', 'file': 'src/index/entry.r
 
 # behaviour-preserving edits (thorough tier): the rules must stay silent on every one of them
 NEUTRAL = [{'name': 'RuneId::load: bindings renamed', 'file': 'src/index/entry.rs', 'old': '  fn load((block, tx): Self::Value) -> Self {\n    Self { block, tx }\n  }', 'new': '  fn load((b, t): Self::Value) -> Self {\n    Self { block: b, tx: t }\n  }'}]
+
+
+def _r35_4(ctx):
+  """UTXO entry byte string: the writer (UtxoEntryBuf push_*, merged, empty) and the reader (UtxoEntry::parse, parse_inscriptions,
+  total_value) agree on segment order, on the flag that enables each segment, and on the record sizes"""
+  from ..panics import guard_strings
+  F = ctx.facts
+  U = 'ord::index::utxo_entry::'
+  ctx.rule('R35.4', 'UtxoEntry::parse reads the segments sats → script → inscriptions under index_sats / index_addresses / index_inscriptions in that dominance order; every UtxoEntryBuf::push_* writes only under the matching flag; '
+           'merged and empty emit the segments in the same order under the same flags; sat ranges are 11 bytes and inscription records are a 4-byte sequence number followed by a varint offset on both sides')
+  p = ctx.body('R35.4', U + 'UtxoEntry::parse')
+  if p is not None:
+    ctx.analysed(p)
+    sw = []
+    for bi in sorted(p.reachable_from(0)):
+      t = p.term(bi)
+      if t['k'] == 'switch':
+        d = fmt_desc(describe_operand(p, t['d']))
+        if d in ('index.index_sats', 'index.index_addresses', 'index.index_inscriptions'):
+          sw.append((bi, d))
+    names = [d for _, d in sw]
+    inorder = names == ['index.index_sats', 'index.index_addresses', 'index.index_inscriptions'] and all(p.dominates(a[0], b[0]) for a, b in zip(sw, sw[1:]))
+    ctx.ob('R35.4', p.n, 'parse tests index_sats, then index_addresses, then index_inscriptions (segment order sats → script → inscriptions)', inorder, f'{names}', where(p, p.line))
+    muls = sorted(p.const_of(s['rv']['b']) for blk in p.blocks for s in blk['s'] if s.get('rv', {}).get('k') == 'bin' and s['rv']['op'].startswith('Mul') and isinstance(p.const_of(s['rv']['b']), int))
+    ctx.ob('R35.4', p.n, 'parse takes 11 bytes per sat range', muls == [11], f'{muls}', where(p, p.line))
+    # the inscriptions segment is the rest of the byte string
+    lits = [s for blk in p.blocks for s in blk['s'] if s.get('rv', {}).get('k') == 'agg' and (s['rv'].get('adt') or '').endswith('ParsedUtxoEntry')]
+    ctx.ob('R35.4', p.n, 'one ParsedUtxoEntry literal with sats, script_pubkey, inscriptions', len(lits) == 1 and lits[0]['rv']['fields'] == ['sats', 'script_pubkey', 'inscriptions'], '', where(p, p.line), nontrivial=False)
+  want_flag = {'push_value': 'index.index_sats==False', 'push_sat_ranges': 'index.index_sats==True', 'push_script_pubkey': 'index.index_addresses==True',
+               'push_inscriptions': 'index.index_inscriptions==True', 'push_inscription': 'index.index_inscriptions==True'}
+  for fn, flag in want_flag.items():
+    b = ctx.body('R35.4', U + 'UtxoEntryBuf::' + fn)
+    if b is None:
+      continue
+    ctx.analysed(b)
+    ws = [c for c in b.calls if c.is_('re:Vec.*::extend$|Extend.*::extend$|ordinals::varint::encode_to_vec$')]
+    ctx.ob('R35.4', b.n, f'{fn} appends to the buffer', len(ws) >= 1, '', where(b, b.line), nontrivial=False)
+    for c in ws:
+      ctx.ob('R35.4', b.n, f'{fn}: append is guarded by the assertion {flag}', flag in guard_strings(b, c.bb, forms=True), f'{guard_strings(b, c.bb)}', where(b, c.line))
+  ps = F.body(U + 'UtxoEntryBuf::push_sat_ranges')
+  if ps is not None:
+    cs = sorted(ps.const_of(s['rv']['b']) for blk in ps.blocks for s in blk['s'] if s.get('rv', {}).get('k') == 'bin' and s['rv']['op'].replace('WithOverflow', '') in ('Div', 'Mul') and isinstance(ps.const_of(s['rv']['b']), int))
+    ctx.ob('R35.4', ps.n, 'push_sat_ranges counts ranges in units of 11 bytes and rejects a ragged tail', cs == [11, 11], f'{cs}', where(ps, ps.line))
+  tv = F.body(U + 'ParsedUtxoEntry::total_value')
+  if tv is not None:
+    ce = tv.calls_to('re:slice::<impl \\[T\\]>::chunks_exact$')
+    ctx.ob('R35.4', tv.n, 'total_value walks the ranges in 11-byte chunks', len(ce) == 1 and tv.const_of(ce[0].args[1]) == 11, '', where(tv, tv.line))
+  pi = F.body(U + 'UtxoEntryBuf::push_inscription')
+  ri = F.body(U + 'ParsedUtxoEntry::parse_inscriptions')
+  if ctx.anchor('R35.4', 'push_inscription / parse_inscriptions', pi is not None and ri is not None):
+    ctx.analysed(pi, ri)
+    order = [('seq' if c.is_('re:Vec.*::extend$|Extend.*::extend$') else 'varint') for c in sorted([c for c in pi.calls if c.is_('re:Vec.*::extend$|Extend.*::extend$|ordinals::varint::encode_to_vec$')], key=lambda c: c.bb)]
+    seq_le = len(pi.calls_to('re:<impl u32>::to_le_bytes$')) == 1
+    ctx.ob('R35.4', pi.n, 'a record is written as sequence_number.to_le_bytes() (4 bytes) then the varint offset', order == ['seq', 'varint'] and seq_le, f'{order}', where(pi, pi.line))
+    adds = sorted(ri.const_of(s['rv']['b']) for blk in ri.blocks for s in blk['s'] if s.get('rv', {}).get('k') == 'bin' and s['rv']['op'].startswith('Add') and isinstance(ri.const_of(s['rv']['b']), int))
+    dec = ri.calls_to('ordinals::varint::decode')
+    fl = ri.calls_to('re:<impl u32>::from_le_bytes$')
+    ok = len(dec) == 1 and len(fl) == 1 and 4 in adds and ri.dominates(fl[0].bb, dec[0].bb)
+    ctx.ob('R35.4', ri.n, 'a record is read as 4 little-endian bytes then a varint, advancing by 4 and by the varint length', ok, f'adds {adds}', where(ri, ri.line))
+  for fn, want in (('merged', ['push_sat_ranges|push_value', 'push_script_pubkey', 'push_inscriptions']), ('empty', ['push_sat_ranges|push_value', 'push_script_pubkey'])):
+    b = ctx.body('R35.4', U + 'UtxoEntryBuf::' + fn)
+    if b is None:
+      continue
+    ctx.analysed(b)
+    calls = sorted([c for c in b.calls if re.search(r'UtxoEntryBuf::push_\w+$', c.name or '')], key=lambda c: c.bb)
+    stage = {'push_sat_ranges': 0, 'push_value': 0, 'push_script_pubkey': 1, 'push_inscriptions': 2, 'push_inscription': 2}
+    seq = [stage[(c.name or '').split('::')[-1]] for c in calls]
+    okorder = all(not b.strictly_reaches(y.bb, x.bb) for x, y in zip(calls, calls[1:]) if stage[(x.name or '').split('::')[-1]] < stage[(y.name or '').split('::')[-1]]) and seq == sorted(seq) and set(seq) == set(range(len(want)))
+    flags_ok = all(want_flag[(c.name or '').split('::')[-1]] in guard_strings(b, c.bb, forms=True) for c in calls)
+    ctx.ob('R35.4', b.n, f'{fn} emits the segments in parse order, each under the flag parse reads it under', okorder and flags_ok, f'{[(c.name or "").split("::")[-1] for c in calls]}', where(b, b.line))
+  mg = F.body(U + 'UtxoEntryBuf::merged')
+  if mg is not None:
+    pis = sorted(mg.calls_to(U + 'UtxoEntryBuf::push_inscriptions'), key=lambda c: c.bb)
+    srcs = [fmt_desc(describe_operand(mg, c.args[1])) for c in pis]
+    ctx.ob('R35.4', mg.n, 'merged keeps the inscriptions of both operands, a before b', len(srcs) == 2 and '(a,index)' in srcs[0] and '(b,index)' in srcs[1], f'{srcs}', where(mg, mg.line))
+    cc = [c for c in mg.calls if c.is_('re:slice::<impl \\[.*\\]>::concat$|::concat$')]
+    ok = False
+    for c in cc:
+      d = fmt_desc(describe_operand(mg, c.args[0]))
+      ok = ok or ('sat_ranges(UtxoEntry::parse(a,index))' in d and 'sat_ranges(UtxoEntry::parse(b,index))' in d and d.index('(a,index)') < d.index('(b,index)'))
+    ctx.ob('R35.4', mg.n, 'merged concatenates the sat ranges of both operands, a before b', ok, '', where(mg, mg.line))
